@@ -236,6 +236,15 @@ def _verdicts(ck: Checker, prog: Program, f):
             for a in _ancestors(st, f):
                 if not _only_verbose(a.test):
                     guard_names |= {n.id for n in ast.walk(a.test) if isinstance(n, ast.Name)}
+        # a guard may read a flag computed earlier (`small = fn_std < epsilon*f0` ... `if small:`): follow such definitions
+        for _ in range(4):
+            more = set()
+            for top in post:
+                if isinstance(top, ast.Assign) and any(isinstance(t, ast.Name) and t.id in guard_names for t in top.targets):
+                    more |= {n.id for n in ast.walk(top.value) if isinstance(n, ast.Name)}
+            if more <= guard_names:
+                break
+            guard_names |= more
         for top in post:
             if isinstance(top, (ast.If, ast.For)) and not (isinstance(top, ast.If) and _only_verbose(top.test)):
                 stored = {n.id for n in ast.walk(top) if isinstance(n, ast.Name) and isinstance(n.ctx, ast.Store)}
@@ -280,30 +289,40 @@ def _preamble(ck: Checker, prog: Program, f):
     R = lambda n: sp.Symbol(n, real=True)   # noqa: E731
     FRQ, MEAN, STD, SR, VB = R("frequency"), R("mean_curve"), R("std_curve"), R("search_range_in_hz"), R("verbose")
     gi, NONE = sp.Function("getitem"), sp.Symbol("None")
-    pt = PathTable(prog, f.module, skip_if=lambda st: _only_verbose(st.test), unroll=True, opaque=OPAQUE)
+    # the preamble over the four worlds (lower limit None / given) x (upper limit None / given): the range is taken as the pair
+    # (low, upp) it is documented to be, so that loops, zips and comprehensions over it are all the same two elements
+    from ..pathtable import outcomes, specialise
+    import itertools as _it
+    S = [sp.Symbol("<low>", real=True), sp.Symbol("<upp>", real=True)]
+    GIVEN = [sp.Function("given")(sp.Integer(0)), sp.Function("given")(sp.Integer(1))]
+    pt = PathTable(prog, f.module, skip_if=lambda st: _only_verbose(st.test), unroll=True, opaque=OPAQUE, env={"search_range_in_hz": sp.Tuple(*S)})
     leaves = pt.leaves(pre)
-    lim = [gi(SR, sp.Integer(0)), gi(SR, sp.Integer(1))]
     dflt = [sp.Function("min")(FRQ), sp.Function("max")(FRQ)]
     seen = set()
     problems = []
-    for l in leaves:
-        ls = literals(l)
-        state = []
-        for k in (0, 1):
-            isn = sp.Eq(lim[k], NONE, evaluate=False)
-            if any(same_rel(x, isn) for x in ls):
-                state.append(True)
-            elif any(same_rel(x, negate(isn)) for x in ls):
-                state.append(False)
-            else:
-                state.append(None)
-        if None in state:
-            problems.append(f"a path does not test both limits for None ({[str(x) for x in ls]})")
+
+    def tidy(v, world):
+        v = specialise(v, world)
+        fnm = lambda x: getattr(getattr(x, "func", None), "__name__", "")      # noqa: E731
+        for _ in range(4):
+            v2 = v.replace(lambda x: fnm(x) == "getitem" and isinstance(x.args[0], sp.Tuple) and getattr(x.args[1], "is_Integer", False)
+                           and 0 <= int(x.args[1]) < len(x.args[0]), lambda x: x.args[0][int(x.args[1])])
+            v2 = v2.replace(lambda x: fnm(x) in ("tuple", "list", "float") and len(x.args) == 1 and (isinstance(x.args[0], sp.Tuple) or fnm(x) == "float"), lambda x: x.args[0])
+            if v2 == v:
+                break
+            v = v2
+        return v
+    for state in _it.product((True, False), (True, False)):
+        world = {S[k]: (NONE if state[k] else GIVEN[k]) for k in (0, 1)}
+        rows = [r for r in outcomes(leaves, world) if r["exit"] != "raise"]
+        label = f"limits ({'None' if state[0] else 'given'}, {'None' if state[1] else 'given'})"
+        if len(rows) != 1:
+            problems.append(f"{label}: {len(rows)} paths (a decision of the preamble does not depend on which limits are None: {[str(c) for r in rows for c in r['conds']][:3]})")
             continue
-        seen.add(tuple(state))
-        L = sp.Tuple(*[dflt[k] if state[k] else lim[k] for k in (0, 1)])
-        Lt = sp.Function("tuple")(L)
-        cur = [l.env.get("frequency", FRQ), l.env.get("mean_curve", MEAN), l.env.get("std_curve", STD)]
+        seen.add(state)
+        l = rows[0]["leaf"]
+        L = sp.Tuple(*[dflt[k] if state[k] else GIVEN[k] for k in (0, 1)])
+        cur = [tidy(sp.sympify(l.env.get(nm, dv)), world) for nm, dv in (("frequency", FRQ), ("mean_curve", MEAN), ("std_curve", STD))]
         if all(state):
             want = [FRQ, MEAN, STD]
         else:
@@ -312,16 +331,16 @@ def _preamble(ck: Checker, prog: Program, f):
                 if getattr(getattr(a, "func", None), "__name__", "") == "trim_curve":
                     call = a
             if call is None:
-                problems.append(f"limits ({'None' if state[0] else 'given'}, {'None' if state[1] else 'given'}): the curves are not trimmed")
+                problems.append(f"{label}: the curves are not trimmed")
                 continue
-            if list(call.args[:4]) not in ([Lt, FRQ, MEAN, STD], [L, FRQ, MEAN, STD]):
-                problems.append(f"trim_curve is applied to {call.args[:4]}; expected ({Lt}, frequency, mean_curve, std_curve)")
+            if list(call.args[:4]) != [L, FRQ, MEAN, STD]:
+                problems.append(f"{label}: trim_curve is applied to {call.args[:4]}; expected ({L}, frequency, mean_curve, std_curve)")
             want = [gi(call, sp.Integer(i)) for i in range(3)]
         if cur != want:
-            problems.append(f"limits ({'None' if state[0] else 'given'}, {'None' if state[1] else 'given'}): curves are {cur}")
-        srv = l.env.get("search_range_in_hz", SR)
-        if srv not in (Lt, L):
-            problems.append(f"the search range in force becomes {srv}; expected {Lt}")
+            problems.append(f"{label}: curves are {cur}")
+        srv = tidy(sp.sympify(l.env.get("search_range_in_hz", sp.Tuple(*S))), world)
+        if srv != L:
+            problems.append(f"{label}: the search range in force becomes {srv}; expected {L}")
     if not problems and len(seen) == 4:
         ck.ok("C16.R4", q, "trimmed whenever at least one limit is given; missing limit = curve end", detail="4 cases of (lower, upper) limit given / None")
     else:
@@ -353,7 +372,10 @@ def _trim(ck: Checker, prog: Program):
     def E(src):
         return TW.tr(ast.parse(src, mode="eval").body)
     nearest = ["np.where(np.abs(frequency - {L}) == np.min(np.abs(frequency - {L})))[0][0]", "np.argmin(np.abs(frequency - {L}))",
-               "int(np.argmin(np.abs(frequency - {L})))", "np.abs(frequency - {L}).argmin()"]
+               "int(np.argmin(np.abs(frequency - {L})))", "np.abs(frequency - {L}).argmin()",
+               "np.flatnonzero(np.abs(frequency - {L}) == np.min(np.abs(frequency - {L})))[0]",
+               "np.nonzero(np.abs(frequency - {L}) == np.min(np.abs(frequency - {L})))[0][0]",
+               "np.argwhere(np.abs(frequency - {L}) == np.min(np.abs(frequency - {L})))[0][0]"]
     lows = [E(n.format(L="min(search_range_in_hz)")) for n in nearest]
     upps = [E(n.format(L="max(search_range_in_hz)")) for n in nearest]
     gi, sl, NONE = sp.Function("getitem"), sp.Function("slice"), sp.Symbol("None")
